@@ -191,8 +191,10 @@ pub enum Op {
     JoinPark { slot: u16, polls: u8 },
     /// create a `Sender::send` future (it is `'static`), poll it `polls` times, keep it in a new slot
     SendPark { slot: u16, script: Vec<PStep>, polls: u8 },
-    /// await a parked send future to completion
+    /// await a parked send / consume future to completion
     AwaitParked { slot: u16 },
+    /// `owning.consume()` creates a lazy future that owns the OwningAddr; it is kept un-polled in a new slot
+    ConsumePark { slot: u16 },
     /// L2: spin until `parties` clients have arrived at rendezvous `id`, then spin for `jitter` x 10 ns, so that the
     /// next operations of those clients run within nanoseconds of each other on different threads; L1: one yield
     Rendezvous { id: u8, parties: u8, jitter: u16 },
